@@ -110,6 +110,8 @@ mod waitset_builder;
 mod waitset_guard;
 mod writer;
 mod writer_details;
+#[cfg(feature = "verif_hooks")]
+pub mod verif_hooks;
 
 pub use active_request::*;
 pub use attribute::*;
